@@ -1,5 +1,5 @@
 import PolyVerif.Lemmas.CodonFreq
-/- Refinement invariant for C08 `history_refines`: heap semantics vs value semantics on Linear histories. -/
+/- Refinement invariant for C08 `history_refines_partial`: heap semantics vs value semantics on Linear histories. -/
 namespace PolyVerif.Lemmas.CodonRefine
 open PolyVerif PolyVerif.Codon PolyVerif.CodonTables PolyVerif.Lemmas.CodonFreq
 open PolyVerif.Spec.ValueTables
